@@ -70,6 +70,11 @@ package rest
 //@   call Authorize#*: assert arg_secret == fr.jwt.secret && fr.jwt.enabled
 //@   call WithPrevSecret#0: assert arg_secret == fr.jwt.prevSecret && len(fr.jwt.prevSecret) > 0
 //@   call verifier#0: assert az == fr.jwt.enabled
+// ... and the chain that goes on to the verifier IS the one the gate was appended to (Append returns a new chain)
+//@   ghost at entry: ap = chn
+//@   ghost at after Append#0: ap = ret
+//@   ghost at after Append#1: ap = ret
+//@   call verifier#0: assert implies(fr.jwt.enabled, arg0 == ap)
 //@   ensures calls(verifier) == old(calls(verifier)) + 1 && result == ret(verifier)
 
 // C18 signature verification per route group: the decrypters a group's verifier accepts are exactly those loaded from THAT
@@ -127,3 +132,10 @@ package rest
 //@ func (ng *engine) notFoundHandler closure 0
 //@   property C09
 //@   call Then#*: assert arg0 != nil
+
+// C18 WithSignature switches verification ON for the group, whatever the key list looks like (strict mode without keys must
+// then refuse to start - see signatureVerifier - instead of silently letting everything through)
+//@ func WithSignature closure 0
+//@   property C18
+//@   requires r != nil
+//@   ensures r.signature.enabled && r.signature.Strict == signature.Strict && r.signature.Expiry == signature.Expiry && sameSlice(r.signature.PrivateKeys, signature.PrivateKeys)
